@@ -16,8 +16,8 @@ from vpbt.core import run_given
 ID = "C24"
 LEVEL = "exploration"
 RULE = (
-    "A case = a codec-features CSV with 1-2 tiny configurations drawn from 12 variants of the suite's minimal 8x4 format (metadata resembling SD/UHD/D-cinema base formats, HQ lossy, "
-    "HQ lossless, LD, fragments 1 and 3, fields, 4:2:0, LeGall depth 2, asymmetric) + a generated schedule of the worker commands "
+    "A case = a codec-features CSV with 3 tiny configurations dealt from seeded permutations of 15 variants (every variant in every run, ordered pairs varying with the seed) of the suite's minimal 8x4 format (metadata resembling SD/UHD/D-cinema base formats, HQ lossy, "
+    "HQ lossless, LD, fragments 1 and 3, fields, 4:2:0, LeGall depth 2, asymmetric, explicit quantisation matrices) + a generated schedule of the worker commands "
     "printed by the real `vc2-test-case-generator --parallel`: a drawn permutation split into drawn batches, batches run one after "
     "another, commands inside a batch concurrently as separate processes, each process with a drawn PYTHONHASHSEED (0, 1, or a random "
     "32-bit value). Workers run the unmodified worker.main() (pickled partial path) with only the natural-picture list swapped for "
@@ -52,6 +52,12 @@ VARIANTS = {
     "dcinemameta": {"frame_rate_numer": "24", "frame_rate_denom": "1", "color_primaries_index": "d_cinema",
                     "color_matrix_index": "reversible", "transfer_function_index": "d_cinema", "luma_excursion": "4095",
                     "color_diff_offset": "2048", "color_diff_excursion": "4095"},
+    # explicit quantisation matrices (one where a default matrix exists too, one where none exists): generators which
+    # substitute their own matrix must not leak it to the generators that run after them in the serial process
+    "customqm": {"quantization_matrix": "3 1 2 0"},
+    "customqm2": {"wavelet_index": "le_gall_5_3", "wavelet_index_ho": "le_gall_5_3", "dwt_depth": "2", "picture_bytes": "40",
+                  "quantization_matrix": "5 3 3 1 2 2 0"},
+    "asymqm": {"wavelet_index_ho": "le_gall_5_3", "dwt_depth_ho": "1", "quantization_matrix": "2 1 3 1 0"},
     "ldfields": {"profile": "low_delay", "picture_bytes": "12", "picture_coding_mode": "pictures_are_fields", "frame_height": "8",
                  "clean_height": "8"},
 }
@@ -134,13 +140,28 @@ def diff_trees(a, b):
     return only_a, only_b, changed
 
 
-def make_case(rnd):
+def make_case(rnd, names=None):
     """A case drawn from a random.Random seeded by ctx.seed (Hypothesis' first example is always the
-    simplest one, which would make every single-example shard identical)."""
-    names = rnd.sample(sorted(VARIANTS), rnd.choice([1, 2, 2]))
-    return dict(names=names, perm_seed=rnd.getrandbits(32),
+    simplest one, which would make every single-example shard identical). names: the configurations, in CSV order
+    (run_shard deals them from seeded permutations of all variants, so that a run covers every variant and as many
+    *ordered pairs* as it has room for: state leaking from one configuration to a later one inside the serial
+    process shows only for particular pairs)."""
+    if names is None:
+        names = rnd.sample(sorted(VARIANTS), rnd.choice([1, 2, 3]))
+    return dict(names=list(names), perm_seed=rnd.getrandbits(32),
                 batch_sizes=[rnd.choice([4, 6, 8])] + [rnd.choice([1, 2, 4, 4, 6, 8]) for _ in range(rnd.randint(0, 11))],
                 seed_kinds=[rnd.choice([0, 1, 2, 3]) for _ in range(8)], serial_seed2=rnd.randint(1, 2 ** 32 - 1))
+
+
+def dealt_names(base_seed, index, size=3):
+    """configurations of the index-th case of a run: consecutive slices of seeded permutations of all variants"""
+    import random
+
+    per_round = len(VARIANTS) // size
+    perm = sorted(VARIANTS)
+    random.Random(base_seed * 100003 + index // per_round).shuffle(perm)
+    k = (index % per_round) * size
+    return perm[k:k + size]
 
 
 def check(case, col):
@@ -150,20 +171,27 @@ def check(case, col):
     names = case["names"]
     d = tempfile.mkdtemp(prefix="vpbt-c24-", dir="/tmp")
     facts = {"outcome": "judged", "big_batch": False, "ncommands": 0}
+    started = []
     try:
         csv_path = os.path.join(d, "features.csv")
         with open(csv_path, "w") as f:
             f.write(make_csv(names))
-        # serial references
+        # serial references (two hash seeds) and the --parallel listings: independent processes, started together
         refs = []
-        for k, hs in enumerate((0, case["serial_seed2"])):
-            out = os.path.join(d, "serial%d" % k)
-            p = run_py(CLI, [csv_path, "-o", out], hs, d)
+        serial = [(run_py(CLI, [csv_path, "-o", os.path.join(d, "serial%d" % k)], hs, d), os.path.join(d, "serial%d" % k))
+                  for k, hs in enumerate((0, case["serial_seed2"]))]
+        rnd = random.Random(case["perm_seed"])
+        out = os.path.join(d, "sched")
+        out2 = os.path.join(d, "alone")
+        listing1 = run_py(CLI, [csv_path, "-o", out, "--parallel"], rnd.choice([0, 1, rnd.getrandbits(32)]), d, capture=True)
+        listing2 = run_py(CLI, [csv_path, "-o", out2, "--parallel"], 0, d, capture=True)
+        started.extend([serial[0][0], serial[1][0], listing1, listing2])
+        for p, sout in serial:
             _, err = p.communicate()
             if p.returncode != 0:
                 col.fail("serial-run-failed", rec, "serial CLI run failed (exit %r): %s" % (p.returncode, err.strip()[-400:]))
                 return facts
-            refs.append(tree_hash(out))
+            refs.append(tree_hash(sout))
         if not refs[0]:
             col.fail("serial-run-empty", rec, "serial run wrote no files")
             return facts
@@ -172,9 +200,7 @@ def check(case, col):
         if oa or ob or ch:
             col.fail("serial-runs-differ", rec, "two serial runs under different PYTHONHASHSEED differ: only-first %r only-second %r changed %r" % (oa[:3], ob[:3], ch[:3]))
         # scheduled run
-        rnd = random.Random(case["perm_seed"])
-        out = os.path.join(d, "sched")
-        p = run_py(CLI, [csv_path, "-o", out, "--parallel"], rnd.choice([0, 1, rnd.getrandbits(32)]), d, capture=True)
+        p = listing1
         stdout, err = p.communicate()
         if p.returncode != 0:
             col.fail("parallel-listing-failed", rec, "--parallel run failed: %s" % err.strip()[-400:])
@@ -184,6 +210,13 @@ def check(case, col):
         if not cmds:
             col.fail("no-commands", rec, "--parallel printed no worker commands")
             return facts
+        stdout2, err = listing2.communicate()
+        cmds2 = [l.split(None, 1)[1] for l in stdout2.splitlines() if l.startswith("vc2-test-case-generator-worker ")]
+        listing = os.path.join(d, "cmds2.txt")
+        with open(listing, "w") as f:
+            f.write("\n".join(reversed(cmds2)))
+        alone = run_py(ALONE, [listing, out2], 0, d, capture=True)  # runs alongside the scheduled batches, own directory
+        started.append(alone)
         order = list(range(len(cmds)))
         rnd.shuffle(order)
         identity = order == sorted(order)
@@ -215,16 +248,8 @@ def check(case, col):
         # history invariant: one at a time (reverse order), disjoint write sets. All commands are decoded and
         # executed by ONE helper process (the pickled-partial path of worker.decode), which snapshots the tree
         # between commands; this avoids one interpreter start-up per command.
-        out2 = os.path.join(d, "alone")
-        p = run_py(CLI, [csv_path, "-o", out2, "--parallel"], 0, d, capture=True)
-        stdout, err = p.communicate()
-        cmds2 = [l.split(None, 1)[1] for l in stdout.splitlines() if l.startswith("vc2-test-case-generator-worker ")]
-        listing = os.path.join(d, "cmds2.txt")
-        with open(listing, "w") as f:
-            f.write("\n".join(reversed(cmds2)))
-        pr = run_py(ALONE, [listing, out2], 0, d, capture=True)
-        stdout, err = pr.communicate()
-        if pr.returncode != 0:
+        stdout, err = alone.communicate()
+        if alone.returncode != 0:
             col.fail("worker-failed", rec, "one-at-a-time replay failed: %s" % err.strip()[-300:])
             return facts
         overlaps = [l for l in stdout.splitlines() if l.startswith("OVERLAP ")]
@@ -237,6 +262,10 @@ def check(case, col):
         facts["files"] = len(refs[0])
         return facts
     finally:
+        for q in started:
+            if q.poll() is None:
+                q.kill()
+                q.communicate()
         shutil.rmtree(d, ignore_errors=True)
 
 
@@ -250,15 +279,16 @@ def body(case, col):
 
 
 def shards(tier):
-    return list(range(4 if tier == "quick" else 16))
+    return list(range(5 if tier == "quick" else 16))
 
 
 def run_shard(spec, ctx):
     import random
 
     rnd = random.Random(ctx.seed)
-    for _ in range(ctx.pick(1, 4)):
-        body(make_case(rnd), ctx.col)
+    per = ctx.pick(1, 3)
+    for k in range(per):
+        body(make_case(rnd, dealt_names(ctx.base_seed, ctx.shard_index * per + k)), ctx.col)
 
 
 def replay(data, col):
